@@ -242,7 +242,22 @@ def one_op(draw, cur):
             pass
         return full(draw(st.sampled_from([b"remove", b"replace", b"test"])), flipped), bad
     if bad == "unknown_op":
-        return full(draw(st.sampled_from([b"", b"ad", b"delete", b"adds", b"tEst"])), ptr(p)), bad
+        if draw(st.booleans()):
+            return full(draw(st.sampled_from([b"", b"ad", b"delete", b"adds", b"tEst"])), ptr(p)), bad
+        # an operation that is complete and would succeed if only its name were one of the six: the name is a neighbour of a real
+        # one (a longer or shorter spelling, another letter case, blanks around it)
+        base = draw(st.sampled_from([b"add", b"remove", b"replace", b"test", b"copy", b"move"]))
+        how = draw(st.integers(0, 9))
+        name = [base + b"s", base + b"d", base + b"ed", base + b" ", b" " + base, base[:-1], base.upper(), base.capitalize(), base + base, base + b"\t"][how]
+        src = nonroot[draw(st.integers(0, len(nonroot) - 1))] if nonroot else []
+        m = [[b"op", S(name)], [b"path", S(add_target(exclude_under=src if src else None) if base in (b"add", b"copy", b"move") else ptr(src))]]
+        if base in (b"add", b"replace"):
+            m.append([b"value", val])
+        if base == b"test":
+            m.append([b"value", copy.deepcopy(rfc.node_at(cur, src))])
+        if base in (b"copy", b"move"):
+            m.append([b"from", S(ptr(src))])
+        return ["O", m], bad
     if bad == "wrong_case_op":
         o = full(opn, ptr(p) if p else b"/k")
         return ["O", [[(b"OP" if k == b"op" else k), v] for k, v in o[1]]], bad
